@@ -20,6 +20,7 @@ static std::string oracle(const Case& c) {
         ev.eval(); ev.count("default-state"); return "";
     }
     g_enable_called = true;
+    polyseed_enable_features(7);   // known, non-default baseline: the case must not depend on what an earlier case left behind (and a call that fails to reset shows)
     std::string calls = c.bytes("calls"); unsigned m = 0; bool any = false;
     for (size_t i = 0; i + 4 <= calls.size(); i += 4) {
         unsigned arg = (uint8_t)calls[i] | ((uint8_t)calls[i + 1] << 8) | ((uint8_t)calls[i + 2] << 16) | ((unsigned)(uint8_t)calls[i + 3] << 24);
@@ -96,7 +97,7 @@ static void run() {
         set_current(c); std::string m = oracle(c); done++; if (!m.empty()) { record_failure(c, m); return; }
     }
     ev.enumerated["enable argument (27 values) x feature value (32) x create-argument high bits (2) x 2 languages, four entry points each"] += done;
-    rc_run("c10-histories", a.n(5000, 150000), 100, [&]() {
+    rc_run("c10-histories", a.n(40000, 300000), 100, [&]() {
         int n = *in_range<int>(1, 7); std::string calls;
         for (int i = 0; i < n; i++) calls += le32s(*rc::gen::weightedOneOf<unsigned>({{5, in_range<unsigned>(0, 8)}, {1, rc::gen::map(vf::u64(), [](uint64_t x) { return (unsigned)x; })}, {1, rc::gen::map(in_range<unsigned>(0, 8), [](unsigned x) { return x | 0xFFFFFFF8u; })}}));
         Case c; c.set("calls", hex(calls)); c.set("f", *in_range<unsigned>(0, 32)); c.set("hi", *in_range<unsigned>(0, 2)); c.set("secret", hex(*g::secret19())); c.set("birthday", (uint64_t)*g::birthday()); c.set("coin", (uint64_t)*g::coin());
